@@ -1,15 +1,210 @@
-"""C16  The database codec never silently changes a circuit
+"""C16  The database codec never silently changes a circuit.
 
-P: (deductive obligations for this property are added in vlib/props/C16.py as they are built)
-B: vlib/bounded/C16.py (bounded stand-in; never counted as proved)."""
+P (all byte values, all positions): BitWriter.write appends exactly one bit to the bit stream and keeps the
+   representation invariant of the writer; BitReader.read returns the bit at the current position and
+   advances by one, raising BitIOError exactly at the end; write_number rejects exactly the numbers that do
+   not fit; the gate-type code tables are mutually inverse and _get_arity is what the decoder reads.
+B: whole bit strings / numbers, dictionary records, circuit round trips, database files (vlib/bounded/C16.py)."""
+import z3
+
 from .. import env
-from .common import STD_TRUSTED, STD_ASSUME, run_bounded
+from ..pyvc.values import Sym, Obj, VList, Native, Unsupported
+from ..pyvc.interp import Model, _simp
+from ..pyvc.prove import Prover, Contract
+from .common import new_interp, finish_refuted, canary, STD_TRUSTED, STD_ASSUME, run_bounded
 
-LEVEL = 'exploration'
+LEVEL = 'other'
+BIO = 'cirbo/circuits_db/bit_io.py'
+ENC = 'cirbo/circuits_db/circuits_encoding.py'
+I = z3.IntSort()
+
+
+class Bytes(Model):
+    """bytearray / bytes of symbolic length: n, elem(i) in [0,256)"""
+
+    def __init__(self, n, elem):
+        self.n, self.elem = n, elem
+
+    def m_len(self, it):
+        return Sym(self.n)
+
+    def _idx(self, it, k):
+        kt = it.int_term(k)
+        if not it.ctx.choose(_simp(z3.And(kt >= -self.n, kt < self.n))):
+            it.raise_('IndexError', 'index out of range')
+        return z3.simplify(z3.If(kt < 0, kt + self.n, kt))
+
+    def m_getitem(self, it, k):
+        return Sym(self.elem(self._idx(it, k)))
+
+    def m_setitem(self, it, k, v):
+        i = self._idx(it, k)
+        vt = it.int_term(v)
+        it.ctx.check('byte-in-range', z3.And(vt >= 0, vt < 256), {'witness': 'byte-range'})
+        old = self.elem
+        self.elem = lambda j: z3.If(j == i, vt, old(j))
+
+    def m_getattr(self, it, name):
+        if name == 'append':
+            def append(x):
+                xt = it.int_term(x)
+                n, old = self.n, self.elem
+                self.elem = lambda j: z3.If(j == n, xt, old(j))
+                self.n = n + 1
+            return Native('bytearray.append', append)
+        raise Unsupported('bytearray.' + name)
+
+
+def bitof(byte, m):
+    """(byte >> m) & 1 for m in 0..7 as linear arithmetic"""
+    r = (byte / 128) % 2
+    for k in range(6, -1, -1):
+        r = z3.If(m == k, (byte / (2 ** k)) % 2, r)
+    return r
+
+
+class Write(Contract):
+    relpath, qualname, name = BIO, 'BitWriter.write', 'BitWriter.write'
+
+    def setup(self, it, ctx):
+        m = it.load_module('cirbo.circuits_db.bit_io')
+        n = z3.Int('n')
+        ef = z3.Function('bytes0', I, I)
+        pos = z3.Int('pos')
+        b = z3.Bool('bit')
+        i = z3.Int('i!b')
+        # representation invariant of the writer
+        ctx.assume(z3.And(n >= 0, pos >= 1, pos <= 8, z3.Implies(n == 0, pos == 8)))
+        ctx.assume(z3.ForAll([i], z3.And(ef(i) >= 0, ef(i) < 256)))
+        for k in range(1, 9):
+            ctx.assume(z3.Implies(z3.And(n > 0, pos == k), ef(n - 1) < 2 ** k))
+        ba = Bytes(n, lambda j: ef(j))
+        o = Obj(m.env['BitWriter'], {'_bytearray': ba, '_bit_pos': Sym(pos)})
+        return [o, Sym(b)], {}, {'o': o, 'n': n, 'ef': ef, 'pos': pos, 'b': b}
+
+    def post(self, it, ctx, result, st):
+        o, n, ef, pos, b = st['o'], st['n'], st['ef'], st['pos'], st['b']
+        ba = o.fields['_bytearray']
+        pos1 = it.int_term(o.fields['_bit_pos'])
+        T0 = 8 * (n - 1) + pos
+        T1 = 8 * (ba.n - 1) + pos1
+        yield ('one-more-bit', T1 == T0 + 1)
+        yield ('RI/pos-range', z3.And(pos1 >= 1, pos1 <= 8, ba.n >= 1))
+        for k in range(1, 9):
+            yield (f'RI/high-bits-zero/{k}', z3.Implies(pos1 == k, z3.And(ba.elem(ba.n - 1) >= 0, ba.elem(ba.n - 1) < 2 ** k)))
+        j = ctx.fresh(I, 'j')
+        m = ctx.fresh(I, 'm')
+        yield ('earlier-bits-unchanged', z3.Implies(z3.And(j >= 0, m >= 0, m < 8, 8 * j + m < T0), bitof(ba.elem(j), m) == bitof(ef(j), m)))
+        yield ('new-bit-is-the-argument', z3.Implies(z3.And(j >= 0, m >= 0, m < 8, 8 * j + m == T0), bitof(ba.elem(j), m) == z3.If(b, 1, 0)))
+
+
+class Read(Contract):
+    relpath, qualname, name = BIO, 'BitReader.read', 'BitReader.read'
+
+    def setup(self, it, ctx):
+        m = it.load_module('cirbo.circuits_db.bit_io')
+        n = z3.Int('n')
+        ef = z3.Function('bytes0', I, I)
+        bp, pos = z3.Ints('byte_pos bit_pos')
+        i = z3.Int('i!b')
+        ctx.assume(z3.And(n >= 0, pos >= 0, pos <= 7, bp >= 0))
+        ctx.assume(z3.ForAll([i], z3.And(ef(i) >= 0, ef(i) < 256)))
+        data = Bytes(n, lambda j: ef(j))
+        o = Obj(m.env['BitReader'], {'_bytes': data, '_byte_pos': Sym(bp), '_bit_pos': Sym(pos)})
+        return [o], {}, {'o': o, 'n': n, 'ef': ef, 'bp': bp, 'pos': pos}
+
+    def post(self, it, ctx, result, st):
+        o, ef, bp, pos = st['o'], st['ef'], st['bp'], st['pos']
+        r = it.truth(result)
+        r = z3.BoolVal(r) if isinstance(r, bool) else r
+        yield ('returns-current-bit', r == (bitof(ef(bp), pos) == 1))
+        bp1, pos1 = it.int_term(o.fields['_byte_pos']), it.int_term(o.fields['_bit_pos'])
+        yield ('advances-by-one', z3.And(8 * bp1 + pos1 == 8 * bp + pos + 1, pos1 >= 0, pos1 <= 7))
+        yield ('only-inside-data', bp < st['n'])
+
+    def on_raise(self, it, ctx, exc, st):
+        nme = exc.cls.name if isinstance(exc, Obj) else repr(exc)
+        if nme == 'BitIOError':
+            yield ('raises-exactly-at-end', st['bp'] >= st['n'], {'raised': nme})
+        else:
+            yield ('no-other-raise', z3.BoolVal(False), {'raised': nme, 'witness': 'raises-' + nme})
+
+
+class WriteNumberRange(Contract):
+    """write_number(number, bits) raises BitIOError iff number is outside [0, 2^bits) (bits concrete 0..9; the
+    writing loop itself is the bounded layer's)"""
+    relpath, qualname = BIO, 'BitWriter.write_number'
+
+    def __init__(self, bits):
+        self.bits = bits
+        self.name = f'BitWriter.write_number/range/{bits}bits'
+
+    def setup(self, it, ctx):
+        m = it.load_module('cirbo.circuits_db.bit_io')
+        num = z3.Int('number')
+        calls = []
+        o = Obj(m.env['BitWriter'], {'_bytearray': Bytes(z3.IntVal(0), lambda j: z3.IntVal(0)), '_bit_pos': 8})
+        it.contracts[BIO + '::BitWriter.write'] = lambda it_, fv, args, kwargs: calls.append(args[1])
+        return [o, Sym(num), self.bits], {}, {'num': num, 'calls': calls}
+
+    def post(self, it, ctx, result, st):
+        num = st['num']
+        yield ('accepted-only-in-range', z3.And(num >= 0, num < 2 ** self.bits))
+        yield ('writes-bits-count', z3.BoolVal(len(st['calls']) == self.bits))
+        for i, c in enumerate(st['calls']):
+            t = it.truth(c)
+            t = z3.BoolVal(t) if isinstance(t, bool) else t
+            yield (f'bit{i}-little-endian', t == ((num / (2 ** i)) % 2 == 1))
+
+    def on_raise(self, it, ctx, exc, st):
+        nme = exc.cls.name if isinstance(exc, Obj) else repr(exc)
+        num = st['num']
+        if nme == 'BitIOError':
+            yield ('rejected-only-out-of-range', z3.Or(num < 0, num >= 2 ** self.bits), {'raised': nme})
+        else:
+            yield ('no-other-raise', z3.BoolVal(False), {'raised': nme, 'witness': 'raises-' + nme})
+
+
+def table_obligations(rep, pv, it):
+    m = it.load_module('cirbo.circuits_db.circuits_encoding')
+    g2i = m.env['_gate_type_to_int']
+    i2g = m.env.get('_int_to_gate_type')
+    bits = m.env['GATE_TYPE_BIT_SIZE']
+    names = {k.fields['_name']: v for k, v in g2i.d.items()}
+    pv.add_raw('C16/_gate_type_to_int/injective-and-fits', '_gate_type_to_int', [],
+               z3.BoolVal(len(set(names.values())) == len(names) and all(isinstance(v, int) and 0 <= v < 2 ** bits for v in names.values())))
+    if i2g is not None:
+        ok = all(i2g.d.get(v) is k for k, v in g2i.d.items()) and len(i2g.d) == len(g2i.d)
+        pv.add_raw('C16/_int_to_gate_type/inverse-of-_gate_type_to_int', '_int_to_gate_type', [], z3.BoolVal(ok))
+    from ..pyvc.interp import Ctx
+    f = m.env['_get_arity']
+    for k in g2i.d:
+        it.ctx = Ctx([])
+        a = it.call(f, [k], {})
+        t = k.fields['_name']
+        want = 1 if t in ('NOT', 'IFF') else 2
+        pv.add_raw(f'C16/_get_arity/{t}', '_get_arity', [], z3.BoolVal(a == want), meta={'witness': 'arity-table'})
 
 
 def run(rep):
     quick = env.TIER != 'thorough'
     rep.trusted_base = list(STD_TRUSTED)
+    for a in STD_ASSUME:
+        rep.assume(a)
+    rep.assume('the loops of write_number / read_number, record framing of binary_dict_io, word-size adequacy and the per-circuit round trip are covered by the bounded stand-in only')
+    rep.assume('background lemma: x | (b*2^k) = x + b*2^k when 0 <= x < 2^k (its side condition is an obligation)')
+    it = new_interp()
+    pv = Prover(rep, it, 'C16')
+    pv.run_contract(Write())
+    pv.run_contract(Read())
+    for bits in range(0, 10):
+        it.contracts.clear()
+        pv.run_contract(WriteNumberRange(bits))
+    it.contracts.clear()
+    table_obligations(rep, pv, it)
+    x = z3.Int('x')
+    canary(rep, pv, 'C16/canary/bit7-is-bit0', [x >= 0, x < 256], bitof(x, z3.IntVal(7)) == bitof(x, z3.IntVal(0)))
+    refuted = pv.discharge(env.NPROC)
+    finish_refuted(rep, pv, refuted)
     run_bounded(rep, 'C16', quick)
-    rep.extra['explanation'] = 'bounded stand-in only in this build'
+    rep.extra['explanation'] = 'single-step contracts of the bit writer/reader, the range check of write_number and the code tables proved from the real source; streams, records and circuits: bounded stand-in.'
